@@ -917,7 +917,7 @@ def validate(ctx, recs, poolfile, tag):
         ctx.states += r["states"]
         ctx.transitions += r["transitions"]
         # TLC wraps long values over several lines: join a printed tuple until its << >> are balanced
-        buf = None
+        buf, nb = None, 0
         for line in r["out"].split("\n"):
             if buf is None:
                 if not re.match(r'<<\s*"BAD"', line):
@@ -930,7 +930,9 @@ def validate(ctx, recs, poolfile, tag):
                 m = re.match(r'<<"BAD", (\d+), (<<.*>>)>>\s*$', buf, re.S)
                 if m:
                     bad[int(m.group(1))] = m.group(2)
+                    nb += 1
                 buf = None
+        vlib.expect_bad(r, nb, "C03Trace")
         os.remove(f)
     return bad
 
